@@ -409,7 +409,7 @@ theorem hyphen_parser_eq (s : List Char) : toOpt (Semver.Gen.hyphen_parser s) = 
           obtain ⟨ma, mi, pa, pre, build⟩ := u
           cases Option.filter (fun partial_ => partial_.major.isSome) (optPartial s).fst <;>
             cases ma <;> cases mi <;> cases pa <;>
-            simp [hyphenSet, hyphenUpper, Version.mk4, into_partial, into3, BoundSet_new, REq.eq, Pred.rs_eq,
+            simp [hyphenSet, hyphenUpper, Version.mk3, Version.mk4, into_partial, into3, into4, BoundSet_new, REq.eq, Pred.rs_eq,
               BoundSet_at_least, BoundSet_at_most]
 
 theorem hyphen_eq (s : List Char) : toOpt (Semver.Gen.hyphen s) = hyphen s := by
